@@ -27,6 +27,8 @@ struct Scenario {
     writes: Vec<usize>,               // writers: partition
     finish: bool,                     // writers: finish (true) or just drop
     flush_at: Option<usize>,
+    may_ok: bool, // readers, corrupt input without an integrity check (raw LZMA2 bit flip): success is allowed, blocking is not
+    ok_only_with: Option<Vec<u8>>, // readers, corrupt input with an integrity check: success is allowed only with exactly these bytes
 }
 
 /// what one execution observed (shared with the closure through a mutex)
@@ -108,7 +110,8 @@ fn run_scenario(sc: &Scenario, obs: &Arc<Mutex<Obs>>) {
                 }
                 (Some(_), Err(e)) => o.unexpected_err = Some(e.to_string()),
                 (None, Ok(())) => {
-                    if sc.reads_before_drop.is_none() {
+                    let harmless = sc.ok_only_with.as_ref().map(|d| d == &out).unwrap_or(false);
+                    if sc.reads_before_drop.is_none() && !sc.may_ok && !harmless {
                         o.unexpected_ok = true
                     }
                 }
@@ -213,7 +216,7 @@ fn scenarios(prop: &str, rng: &mut Rng, thorough: bool) -> Vec<Scenario> {
         for &workers in if thorough { &[1u32, 2, 3, 4][..] } else { &[1u32, 3][..] } {
             let base = Scenario {
                 name: String::new(), kind: "lzma2r", input: vec![], expect: None, workers, dict, unit,
-                reads_before_drop: None, writes: vec![], finish: true, flush_at: None,
+                reads_before_drop: None, writes: vec![], finish: true, flush_at: None, may_ok: false, ok_only_with: None,
             };
             if prop == "C08" || prop == "C10" {
                 v.push(Scenario { name: format!("lzma2r-valid-{size}-w{workers}"), kind: "lzma2r", input: l2.clone(), expect: Some(data.clone()), ..base.clone() });
@@ -247,7 +250,12 @@ fn scenarios(prop: &str, rng: &mut Rng, thorough: bool) -> Vec<Scenario> {
                 }
                 muts.push(("empty".into(), vec![], "lzipr"));
                 for (mn, m, k) in muts {
-                    v.push(Scenario { name: format!("{k}-{mn}-{size}-w{workers}"), kind: k, input: m, expect: None, ..base.clone() });
+                    // raw LZMA2 carries no checksum: a flipped bit (e.g. inside a stored chunk) may decode
+                    let may_ok = k == "lzma2r" && mn.starts_with("flip");
+                    // a flip the member's CRC / size fields cannot see changes nothing (e.g. in the unread tail of
+                    // the range coder's flush bytes): success with exactly the original data is not a violation
+                    let ok_only_with = if k == "lzipr" && mn.contains("flip") { Some(data.clone()) } else { None };
+                    v.push(Scenario { name: format!("{k}-{mn}-{size}-w{workers}"), kind: k, input: m, expect: None, may_ok, ok_only_with, ..base.clone() });
                 }
             }
         }
